@@ -286,6 +286,8 @@ class Tr:
                 return '[%s]' % ', '.join(self.e(x) for x in n.elts)     # a tuple of classifications
             if n.elts and all(isinstance(x, ast.Constant) and isinstance(x.value, str) for x in n.elts):
                 return '[%s]' % ', '.join(json.dumps(x.value) for x in n.elts)
+            if n.elts and all(isinstance(x, ast.Constant) and isinstance(x.value, int) and not isinstance(x.value, bool) for x in n.elts):
+                return '[%s]' % ', '.join(str(x.value) for x in n.elts)
             raise Unsupported('tuple ' + self.src(n))
         if isinstance(n, ast.ListComp) and len(n.generators) == 1 and not n.generators[0].ifs \
                 and isinstance(n.generators[0].target, ast.Name) and n.generators[0].target.id == '_' \
@@ -331,6 +333,8 @@ class Tr:
             return '(%s ++ %s)' % (self.e(n.left), self.e(n.right))
         if isinstance(n, ast.BinOp) and isinstance(n.op, ast.FloorDiv) and getattr(self, 'div_guard', False):
             return self.floor_div(n)
+        if isinstance(n, ast.BinOp) and isinstance(n.op, ast.BitAnd):
+            return '(%s &&& %s)' % (self.e(n.left), self.e(n.right))
         if isinstance(n, ast.BinOp):
             ops = {ast.Add: '+', ast.Mult: '*', ast.FloorDiv: '/', ast.Mod: '%', ast.Sub: '-'}
             if type(n.op) not in ops:
@@ -1426,6 +1430,7 @@ GROUP_OF = {
     'copy_slice_dest': 'values', 'copy_slice_vals': 'values', 'get_changed_class': 'values',
     'copy_slice': 'subset', 'copy_sample': 'subset', 'get_subset_key': 'subset',
     'reclassify': 'insert', 'insert_dispatch': 'insert', 'change_class': 'insert', 'insert_slice': 'insert', 'insert_non_slice': 'insert', 'insert_sample': 'insert',
+    'ignore_private': 'extract', 'ignore_pixel_data': 'extract', 'ignore_overlay_data': 'extract', 'ignore_color_lut_data': 'extract',
     'cli_out_name': 'cli',
     'group_place': 'group',
     'key_regex_filter': 'filter',
@@ -1456,6 +1461,7 @@ GROUP_IMPORTS = {
     'filter': ['DcmVerif.Generated.PyPrelude'],
     'group': ['DcmVerif.Generated.PyPrelude'],
     'cli': ['DcmVerif.Generated.PyPrelude', 'DcmVerif.Model.Cli'],
+    'extract': ['DcmVerif.Generated.PyPrelude', 'DcmVerif.Model.Extract'],
 }
 GEN_DIR = os.environ.get('GEN_CODE_DIR', os.path.normpath(os.path.join(HERE, '..', 'lean', 'DcmVerif', 'Generated')))
 
@@ -2239,6 +2245,16 @@ def translate():
              'already used gets the suffix `-NNN` with the first index from the group counter on that is free; `fmt` renders the '
              'index (`%03d`), the set `generated_outs` is a list; the `while` loop is bounded by the number of names used so far plus one',
              prologue=['let mut out_fn := out_fn0', 'let mut generated_outs := generated_outs0', 'let mut out_idx := out_idx0'])
+    # ---- the default ignore rules of MetaExtractor (group `extract`)
+    for nm in ('ignore_private', 'ignore_pixel_data', 'ignore_overlay_data', 'ignore_color_lut_data'):
+        f = find_func(ex, None, nm)
+        if f is None:
+            missing.append(nm + ': not found')
+            continue
+        tr = Tr({'elem.tag.group': 'e.group', 'elem.tag.elem': 'e.elem'}, {})
+        emit(nm, '(e : Ex.Elem) : Except PyErr Bool', f.body, tr,
+             '`%s` (extract.py), translated statement by statement; `elem.tag.group` / `elem.tag.elem` are the fields of the '
+             'element record' % nm)
     # ---- check_valid
     f = find_func(dm, 'DcmMetaExtension', 'check_valid')
     if f is None:
